@@ -314,17 +314,16 @@ Proof.
     eexists. split; [reflexivity|].
     unfold Resize.of_shaped. cbn [scons sdat lookup dict_del storage_of tshape tdt tflat]. rewrite Z.eqb_refl.
     replace ((rsize r =? 0) && (length sh =? 0)) with false by (destruct (Nat.eqb_spec (rsize r) 0); [lia|reflexivity]).
-    fold rws'. rewrite <- Hl' at 2. rewrite (chunks_concat _ _ Hu').
+    fold rws'. pose proof (chunks_concat _ _ Hu') as Hch. rewrite Hl' in Hch. rewrite Hch.
     cbn [Resize.rg Resize.rcons Resize.rstrict Resize.rlive Resize.rparam Resize.rdt Resize.rdur Resize.rincl
          r1 Resize.set_rg g1 N ptr st].
     set (g' := mkRing (rsize r) 0 (SFull d sh rws')).
     assert (Hw' : wf g') by (unfold wf, g'; cbn [N ptr st]; repeat split; auto; lia).
-    split; [|split; [|split; [|repeat split; auto]]].
+    split; [|split; [|split; [|do 8 (split; [reflexivity|]); split]]].
     + split; [exact Hw'|]. split; [exact Hu'|]. split; [exact Hnd|]. intros Hnf. reflexivity.
     + match goal with |- Resize.rvalid _ ?x = true => rewrite (rvalid_full x d sh rws' eq_refl) end. cbn [Resize.all_cons Resize.rg Resize.rcons Resize.rstrict N g'].
       unfold valid in Hv'. cbn [sdat scons sstrict] in Hv'. rewrite <- Hv'. apply ioc_shape. cbn [tshape]. congruence.
     + unfold no_alias0 in *. cbn [Resize.rg Resize.rcons st g']. rewrite Es in Hna. exact Hna.
-    + intros Hnf. exfalso. apply Hnf. unfold full. rewrite Es. exact I.
     + intros Hnf. exfalso. apply Hnf. unfold full. rewrite Es. exact I.
     + intros d0 sh0 rws0 E0. injection E0 as <- <- <-. exists rws'. split; [reflexivity|].
       destruct Hw as (Hn & _ & _).
@@ -337,3 +336,66 @@ Proof.
       * intros k Hk. unfold at_, rows, idx, g'. cbn [N ptr st]. rewrite idx0 by lia.
         unfold rws'. apply resized_rows_older; lia.
 Qed.
+
+(* ------------------------------------------------------------------ the three temporal setters *)
+Inductive setter := SetDt (v : T Nm) | SetDur (v : T Nm) | SetIncl (b : bool).
+Definition apply_setter (r : rec) (s : setter) : rec * option xerr :=
+  match s with SetDt v => set_dt r v | SetDur v => set_duration r v | SetIncl b => set_inclusive r b end.
+(* the argument test of the setter (dt > 0, duration >= 0; inclusive re-assigns the stored duration) *)
+Definition setter_ok (r : rec) (s : setter) : Prop :=
+  match s with
+  | SetDt v => gtb Nm v (zero Nm) = true
+  | SetDur v => geb Nm v (zero Nm) = true
+  | SetIncl _ => geb Nm (rdur r) (zero Nm) = true
+  end.
+(* the configuration the caller asked for *)
+Definition configured (r : rec) (s : setter) : rec :=
+  match s with
+  | SetDt v => mkRec Nm (rg r) (rstrict r) (rlive r) (rparam r) (rcons r) v (rdur r) (rincl r)
+  | SetDur v => mkRec Nm (rg r) (rstrict r) (rlive r) (rparam r) (rcons r) (rdt r) v (rincl r)
+  | SetIncl b => mkRec Nm (rg r) (rstrict r) (rlive r) (rparam r) (rcons r) (rdt r) (rdur r) b
+  end.
+
+Theorem setter_refused (r : rec) (s : setter) : ~ setter_ok r s -> apply_setter r s = (r, Some XValue) \/
+  (exists b, s = SetIncl b /\ snd (apply_setter r s) = Some XValue).
+Proof.
+  destruct s as [v|v|b]; cbn [setter_ok apply_setter]; intros H.
+  - left. unfold Resize.set_dt. destruct (gtb Nm v (zero Nm)); [congruence|reflexivity].
+  - left. unfold Resize.set_duration. destruct (geb Nm v (zero Nm)); [congruence|reflexivity].
+  - right. exists b. split; [reflexivity|]. unfold Resize.set_inclusive, Resize.set_duration. cbn [Resize.rdur].
+    destruct (geb Nm (rdur r) (zero Nm)); [congruence|reflexivity].
+Qed.
+
+Theorem setter_spec (r : rec) (s : setter) : rwf r -> rvalid r = true -> no_alias0 r -> setter_ok r s ->
+  let c := configured r s in
+  exists r', apply_setter r s = (r', None) /\
+    rwf r' /\ rvalid r' = true /\ no_alias0 r' /\
+    N (rg r') = rsize c /\ rdt r' = rdt c /\ rdur r' = rdur c /\ rincl r' = rincl c /\
+    rcons r' = rcons r /\ rstrict r' = rstrict r /\ rlive r' = rlive r /\ rparam r' = rparam r /\
+    (~ full (rg r) -> st (rg r') = st (rg r) /\ ptr (rg r') = ptr (rg r)) /\
+    (forall d sh rws, st (rg r) = SFull d sh rws ->
+       exists rws', st (rg r') = SFull d sh rws' /\
+         (forall k, (1 <= k <= Z.of_nat (Nat.min (N (rg r)) (rsize c)))%Z -> at_ (rg r') k = at_ (rg r) k) /\
+         (forall k, (Z.of_nat (N (rg r)) < k <= Z.of_nat (rsize c))%Z -> at_ (rg r') k = zero_obs sh)).
+Proof.
+  intros Hwf Hv Hna Hok c.
+  assert (Hc : rwf c /\ rvalid c = true /\ no_alias0 c) by (destruct s; exact (conj Hwf (conj Hv Hna))).
+  destruct Hc as (Hwfc & Hvc & Hnac).
+  destruct (resize_record_spec c Hwfc Hvc Hnac)
+    as (r' & Hr & H1 & H2 & H3 & H4 & H5 & H6 & H7 & H8 & H9 & H10 & H11 & H12 & H13).
+  assert (Ha : apply_setter r s = resize_record c).
+  { destruct s as [v|v|b]; cbn [apply_setter setter_ok] in *.
+    - unfold Resize.set_dt. rewrite Hok. reflexivity.
+    - unfold Resize.set_duration. rewrite Hok. reflexivity.
+    - unfold Resize.set_inclusive, Resize.set_duration. cbn [Resize.rdur]. rewrite Hok. reflexivity. }
+  exists r'. rewrite Ha. split; [exact Hr|]. split; [exact H1|]. split; [exact H2|]. split; [exact H3|].
+  split; [exact H4|]. split; [exact H9|]. split; [exact H10|]. split; [exact H11|].
+  assert (Eg : rg c = rg r) by (destruct s; reflexivity).
+  assert (Ec : rcons c = rcons r /\ rstrict c = rstrict r /\ rlive c = rlive r /\ rparam c = rparam r)
+    by (destruct s; repeat split; reflexivity).
+  destruct Ec as (E1 & E2 & E3 & E4).
+  split; [congruence|]. split; [congruence|]. split; [congruence|]. split; [congruence|].
+  rewrite Eg in H12, H13. split; [exact H12|exact H13].
+Qed.
+
+End ResizeProofs.
